@@ -1079,3 +1079,73 @@ func (g *pkgGraph) hasEffects(f *ssa.Function) bool {
 	}
 	return false
 }
+
+// ---------------------------------------------------------------------------
+// the list(s) a function walks (C10-D4 tick-advance when the scan is not a separate function)
+
+type c10Walk struct {
+	at   ssa.Instruction // the call that takes the first element (List.Front / List.Back)
+	list ssa.Value       // its receiver
+}
+
+// c10WalkedLists resolves, for every `x.Value.(*timingEntry)` of fn, where the element x comes from:
+// through φ-nodes, local slots and Element.Next/Prev back to the List.Front/Back calls that seed
+// the walk. ok is false when an element has another origin (parameter, field, unknown call).
+func c10WalkedLists(fn *ssa.Function) (walks []c10Walk, ok bool) {
+	ok = true
+	seen := map[ssa.Value]bool{}
+	have := map[ssa.Instruction]bool{}
+	var trace func(v ssa.Value, d int)
+	trace = func(v ssa.Value, d int) {
+		v = core.Forward(v)
+		if seen[v] {
+			return
+		}
+		seen[v] = true
+		if d > 12 {
+			ok = false
+			return
+		}
+		switch x := v.(type) {
+		case *ssa.Phi:
+			for _, e := range x.Edges {
+				trace(e, d+1)
+			}
+		case *ssa.Call:
+			switch core.Short(core.CalleeName(x)) {
+			case "(*container/list.Element).Next", "(*container/list.Element).Prev":
+				trace(core.Args(x)[0], d+1)
+			case "(*container/list.List).Front", "(*container/list.List).Back":
+				if !have[x] {
+					have[x] = true
+					walks = append(walks, c10Walk{x, core.Args(x)[0]})
+				}
+			default:
+				ok = false
+			}
+		case *ssa.Const:
+			if !x.IsNil() {
+				ok = false
+			}
+		default:
+			ok = false
+		}
+	}
+	for _, in := range core.Instrs(fn, func(in ssa.Instruction) bool {
+		ta, isTA := in.(*ssa.TypeAssert)
+		return isTA && strings.HasSuffix(ta.AssertedType.String(), ".timingEntry")
+	}) {
+		ld, isLd := core.Forward(in.(*ssa.TypeAssert).X).(*ssa.UnOp)
+		if !isLd || ld.Op != token.MUL {
+			ok = false
+			continue
+		}
+		fa, isFA := ld.X.(*ssa.FieldAddr)
+		if !isFA || core.FieldAddrName(fa) != "Element.Value" {
+			ok = false
+			continue
+		}
+		trace(fa.X, 0)
+	}
+	return walks, ok
+}
